@@ -434,10 +434,39 @@ def type_of_slot(members, k):
 # Each case function returns (list of Coq bool terms, canonical case description, nontrivial) and raises Bad when the
 # implementation's result differs from the oracle.
 
+def repeated_descriptors(g):
+    """a sequence of 3-5 descriptors drawn from 2-3 distinct ones that declare a shared field name with DIFFERENT types, so
+    that a record TYPE recurs after another one (A, B, A ...); a repeat is the same descriptor object or an equal
+    descriptor built again"""
+    from flow.record import RecordDescriptor
+    rnd = g.rnd
+    shared = rnd.choice(["key", "a", "value"])
+    types = rnd.sample(["string", "varint", "bytes", "float", "datetime", "string[]", "uri"], 3)
+    base = []
+    for i in range(rnd.randint(2, 3)):
+        fl = g.fields(lo=0, hi=3)
+        fl = [(t, n) for t, n in fl if n != shared]
+        fl.insert(rnd.randint(0, len(fl)), (types[i], shared))
+        d = RecordDescriptor(rnd.choice(["rep/a", "rep/b", "t/a"]) if i else "rep/a", fl)
+        g.made.append((d, list(fl)))
+        base.append(d)
+    order = [0, 1, 0] + [rnd.randrange(len(base)) for _ in range(rnd.randint(0, 2))]
+    if rnd.random() < 0.5:
+        rnd.shuffle(order)
+    out = []
+    for i in order:
+        d = base[i]
+        if rnd.random() < 0.4:      # an equal descriptor, built again
+            d = RecordDescriptor(d.name, list(d.get_field_tuples()))
+            g.made.append((d, [tuple(x) for x in d.get_field_tuples()]))
+        out.append(d)
+    return out
+
+
 def case_merge(g, T):
     from flow.record.base import merge_record_descriptors
     rnd = g.rnd
-    descs = [g.descriptor() for _ in range(rnd.randint(1, 4))]
+    descs = repeated_descriptors(g) if rnd.random() < 0.3 else [g.descriptor() for _ in range(rnd.randint(1, 4))]
     replace = rnd.random() < 0.5
     name = rnd.choice([None, None, "new/name"])
     out = merge_record_descriptors(tuple(descs), replace, name)
@@ -460,7 +489,10 @@ def case_merge(g, T):
 def case_extend(g, T):
     from flow.record import extend_record
     rnd = g.rnd
-    recs = [g.record(g.descriptor()) for _ in range(rnd.randint(1, 4))]
+    if rnd.random() < 0.3:
+        recs = [g.record(d) for d in repeated_descriptors(g)]       # a record TYPE recurs later in the list
+    else:
+        recs = [g.record(g.descriptor()) for _ in range(rnd.randint(1, 4))]
     replace = rnd.random() < 0.5
     name = rnd.choice([None, None, "new/name"])
     before = [obs(r) for r in recs]
@@ -485,9 +517,30 @@ def case_extend(g, T):
 def case_expand(g, T):
     from flow.record import iter_timestamped_records
     rnd = g.rnd
-    r = g.record(g.descriptor(lo=0, hi=6, force_ts=rnd.randint(0, 3)))
+    mode = rnd.random()
+    if mode < 0.3:
+        # the record type itself has fields called ts / ts_description: in the first two positions with the very types of
+        # the timestamp record, swapped, later, only one of them, with other types; plus further datetime fields
+        from flow.record import RecordDescriptor
+        lay = rnd.choice([[("datetime", "ts"), ("string", "ts_description")], [("datetime", "ts"), ("string", "ts_description")],
+                          [("string", "ts_description"), ("datetime", "ts")], [("datetime", "ts")], [("string", "ts_description")],
+                          [("string", "ts"), ("datetime", "ts_description")], [("varint", "ts"), ("string", "ts_description")],
+                          [("datetime", "ts"), ("datetime", "ts_description")]])
+        rest = [(t, n) for t, n in g.fields(lo=0, hi=4, force_ts=rnd.randint(0, 2)) if n not in ("ts", "ts_description")]
+        pos = 0 if rnd.random() < 0.6 else rnd.randint(0, len(rest))
+        fl = rest[:pos] + lay + rest[pos:]
+        d = RecordDescriptor(rnd.choice(RECNAMES), fl)
+        g.made.append((d, list(fl)))
+        r = g.record(d)
+    elif mode < 0.45:
+        # the OUTPUT of an expansion is expanded again
+        first = g.record(g.descriptor(lo=1, hi=5, force_ts=rnd.randint(1, 3)))
+        outs0 = list(iter_timestamped_records(first))
+        r = rnd.choice(outs0)
+    else:
+        r = g.record(g.descriptor(lo=0, hi=6, force_ts=rnd.randint(0, 3)))
     before = obs(r)
-    what = "iter_timestamped_records(%s)" % describe(before)
+    what = "iter_timestamped_records(%s)%s" % (describe(before), " (itself an output of iter_timestamped_records)" if 0.3 <= mode < 0.45 else "")
     try:
         outs = list(iter_timestamped_records(r))
         err = None
@@ -1029,7 +1082,10 @@ def run(ctx):
         "records (with/without replace and name=), per-timestamp expansion of records with 0-3 datetime fields at any position, "
         "grouped records of 1-3 members incl. nested groups (view, get/set through the group, _replace), Record._replace with known/"
         "reserved/unknown names, RecordFieldRewriter over fields/exclude lists (unknown, reserved, duplicate names; records and "
-        "groups), init_from_record; the flat view through _asdict() / _asdict(fields=) / _asdict(exclude=) / both, with member fields "
+        "groups), init_from_record; merge/extend also over lists in which a record TYPE recurs (A, B, A ...; same descriptor object or an equal "
+        "one built again) with conflicting types of a shared field; expansion also over record types that themselves have fields ts / "
+        "ts_description (first two positions with the timestamp record's own types, swapped, later, one of them, other types) and over "
+        "OUTPUTS of the expansion; the flat view through _asdict() / _asdict(fields=) / _asdict(exclude=) / both, with member fields "
         "called like the group object's own attributes (name, records, descriptors, flat_fields, fieldname_to_record; only in groups "
         "without nested groups). Histories: with probability 1/2 every generated record/descriptor is first used by 1-3 other "
         "operations (get_all_fields, definition, grouping, _asdict, extend, merge, getfields, fields, packers, expansion, rewriter, "
